@@ -29,7 +29,7 @@ TRACE: harness/src/bin/hostrace.rs races 1 writer against n <= 4 readers on the 
          text; any interleaving with the other files), every fifth change re-sends roots and package graph; the
          ApplyBegin line carries the writes in queue order and Trace_Host requires the last content queued for a file
          to be its text in the new version (WellFormedTodo)."""
-import json, os, re
+import json, os, time, re
 import vlib
 
 ACTIONS = ["Snapshot", "QueryStart", "QueryStep", "QueryFinish", "Drop",
@@ -81,9 +81,19 @@ def model_check(out, tier):
 # --------------------------------------------------------------------------------------
 # running the race
 
+class ProcessDied(Exception):
+    def __init__(self, rc, stderr):
+        Exception.__init__(self, f"rc={rc}")
+        self.rc, self.stderr = rc, stderr
+
+
 def hostrace(seed, args, trace_path, timeout):
     p = vlib.run_bin("hostrace", list(args) + ["--trace-out", trace_path, "--deadline-ms", str(DEADLINE_MS)],
                      env={"VERIF_SEED": str(seed)}, timeout=timeout)
+    if p.returncode < 0 or p.returncode in (134, 139):
+        # killed by a signal (abort: a panic while unwinding, a stack overflow ...): the analysis took the process down -
+        # "never a panic" is part of the property.  Panics proper are caught per call and come back as data.
+        raise ProcessDied(p.returncode, p.stderr.decode("utf-8", "replace")[-1500:])
     if p.returncode != 0:
         raise vlib.ToolError(f"hostrace crashed rc={p.returncode}: " + p.stderr.decode()[-2000:])
     recs = vlib.json_lines(p.stdout)
@@ -94,6 +104,21 @@ def hostrace(seed, args, trace_path, timeout):
     if not summary:
         raise vlib.ToolError("hostrace printed no summary")
     return summary[0], [r for r in recs if r["kind"] == "mismatch"]
+
+
+def locate_abort(seed, hr_args, d):
+    """the first run plan whose re-execution alone (a few attempts) kills the process again; None if none does within the budget"""
+    args = list(hr_args)
+    nruns = int(args[args.index("--runs") + 1]) if "--runs" in args else 20
+    t0 = time.time()
+    for r in range(nruns):
+        if time.time() - t0 > 240:
+            break
+        p = vlib.run_bin("hostrace", ["--only-run", str(r), "--repeat", "3", "--jobs", "1", "--trace-out", os.path.join(d, "locate.ndjson"),
+                                      "--deadline-ms", str(DEADLINE_MS)], env={"VERIF_SEED": str(seed)}, timeout=300)
+        if p.returncode < 0 or p.returncode in (134, 139):
+            return r
+    return None
 
 
 def split_runs(trace_path):
@@ -273,7 +298,18 @@ def binding_selftest(out, runs):
 def race_and_validate(out, seed, hr_args, name, timeout, selftest=False):
     d = vlib.workdir("c12-race-" + name)
     trace_path = os.path.join(d, "trace.ndjson")
-    summary, mism = hostrace(seed, hr_args, trace_path, timeout)
+    try:
+        summary, mism = hostrace(seed, hr_args, trace_path, timeout)
+    except ProcessDied as e:
+        # which run: the jobs run in parallel, so the plans are re-run one at a time, each in its own process
+        culprit = locate_abort(seed, hr_args, d)
+        out.report({"what": "process aborted", "signal": -e.rc if e.rc < 0 else e.rc - 128},
+                   {"seed": seed, "args": list(hr_args) if culprit is None else ["--only-run", str(culprit), "--repeat", "6", "--jobs", "1"],
+                    "run": culprit, "stderr_tail": e.stderr})
+        return {"runs": 0, "aborted": True, "queries": 0, "racing_runs": 0, "samples": [], "ref_pairs": 0, "ref_pairs_differing": 0,
+                "events": 0, "cancelled_results": 0, "applies": 0, "max_apply_ms": 0, "mean_apply_ms": 0, "max_query_ms": 0, "ambushes": 0,
+                "ambush_timeouts": 0, "changes_with_two_contents_for_a_file": 0, "changes_with_roots_and_graph": 0,
+                "ok_answers_on_versions_after_such_changes": 0, "by_kind": {}}, 0
     runs = split_runs(trace_path)
     if len(runs) != summary["runs"]:
         raise vlib.ToolError(f"trace has {len(runs)} runs, summary says {summary['runs']}")
